@@ -119,6 +119,17 @@ func c16Main(args []string) int {
 				jobs = append(jobs, sched.Job{Scenario: n, Preempt: p, Data: 1, Sched: d, ShardI: s, ShardN: shards, BudgetS: budget})
 			}
 		}
+		// the part as a whole stays inside a wall-clock budget whatever the number of cores (jobs that finish early
+		// leave their share unused; a job that hits its share is reported as capped)
+		totalBudget := 90.0
+		if thorough {
+			totalBudget = 900
+		}
+		minShare := 10.0
+		if thorough {
+			minShare = 20
+		}
+		sched.SpreadBudget(jobs, totalBudget, *procs, minShare)
 		t0 := time.Now()
 		tot := sched.RunAll(rep, jobs, []string{"C16", "worker", "sched"}, *procs)
 		rep.Set("sched_executions", tot.Executions)
